@@ -41,7 +41,7 @@ func selftestDeterminism(seed uint64) int {
 	small := []string{
 		"VERIF_C13_PROGRAMS=30", "VERIF_C13_CLI=3",
 		"VERIF_C14_PROGRAMS=25", "VERIF_C14_FULL=0", "VERIF_C14_CLI=2",
-		"VERIF_C16_FORMAT=40", "VERIF_C16_HOSTS=1", "VERIF_C16_HOSTLEN=40", "VERIF_C16_COMPILE=3",
+		"VERIF_C16_FORMAT=40", "VERIF_C16_HOSTS=1", "VERIF_C16_HOSTLEN=40", "VERIF_C16_COMPILE=3", "VERIF_C16_PREEMPT=60",
 		"VERIF_NO_EVIDENCE=1", "VERIF_SCRATCH=" + sc.Dir,
 	}
 	logDir := filepath.Join(sc.Dir, "eventlogs")
